@@ -74,13 +74,14 @@ def subtyped(v):
     return SubInt(v) if type(v) is int else v
 
 
-def build_fiber(spec, shape, level=0, default=0, wrap=None):
-    """spec: [[coord, leafvalue | subspec], ...]"""
+def build_fiber(spec, shape, level=0, default=0, wrap=None, initial=None):
+    """spec: [[coord, leafvalue | subspec], ...]; initial: leaf fibers are built the other way the constructor
+    offers, from coordinates and one value for all of them (the values of the spec are then not used)"""
     coords = [dec_coord(c) for c, _ in spec]
     payloads = []
     for _, p in spec:
         if isinstance(p, list):
-            payloads.append(build_fiber(p, shape, level + 1, default, wrap))
+            payloads.append(build_fiber(p, shape, level + 1, default, wrap, initial))
         else:
             payloads.append(wrap(p) if wrap else p)
     sh = shape[level] if level < len(shape) else None
@@ -89,6 +90,8 @@ def build_fiber(spec, shape, level=0, default=0, wrap=None):
         kw["shape"] = sh
     if level == len(shape) - 1:
         kw["default"] = default
+        if initial is not None and coords:
+            return Fiber(coords, initial=initial, **kw)
     return Fiber(coords, payloads, **kw)
 
 
@@ -424,7 +427,10 @@ class TreeSim(WorldBase):
         elif route == "unc":
             t = Tensor.fromUncompressed(ids, a["nest"], default=default)
         elif route == "fib":
-            f = build_fiber(a["spec"], shape, default=default, wrap=subtyped if self.cfg.get("subtyped") else None)
+            f = build_fiber(a["spec"], shape, default=default, wrap=subtyped if self.cfg.get("subtyped") else None,
+                            initial=a.get("initial"))
+            if a.get("initial") is not None:
+                self.probe("leaf_fibers_built_from_coords_and_one_initial_value")
             t = Tensor.fromFiber(ids, f, shape=shape, default=default)
             t.setMutable(True)
         elif route == "rand":
@@ -433,7 +439,7 @@ class TreeSim(WorldBase):
             t = Tensor.makePopulated(ids, shape, initial=a.get("initial", 1), default=0)
             default = 0
         elif route == "free1":
-            t = build_fiber(a["spec"], shape, default=default)
+            t = build_fiber(a["spec"], shape, default=default, initial=a.get("initial"))
         elif route == "rank0":
             t = Tensor(rank_ids=[], name="r0")
             r = t.getPayloadRef()
@@ -1925,8 +1931,11 @@ class TreeSim(WorldBase):
             return {"slot": s, "route": "adopt", "depth": 1, "shape": [1], "default": 0, "h": g.randrange(1 << 16)}
         if self.prop in ("C01", "C03", "C05", "C10") and s > 0 and g.random() < 0.12:
             S = g.randint(2, 6)
-            return {"slot": s, "route": "free1", "depth": 1, "shape": [S], "default": 0,
-                    "spec": self.gen_spec(g, [S], 0, cfg["explicit"])}
+            a1 = {"slot": s, "route": "free1", "depth": 1, "shape": [S], "default": 0,
+                  "spec": self.gen_spec(g, [S], 0, cfg["explicit"])}
+            if g.random() < 0.25:
+                a1["initial"] = self.nextval()
+            return a1
         if self.prop in ("C05", "C10", "C02") and g.random() < 0.12:
             ent = []
             for _ in range(g.randint(0, 5)):
@@ -1946,6 +1955,8 @@ class TreeSim(WorldBase):
                 a["default"] = 0
         elif route == "fib":
             a["spec"] = self.gen_spec(g, shape, 0, cfg["explicit"])
+            if g.random() < 0.15:
+                a["initial"] = self.nextval()
         elif route == "rand":
             a["density"] = [g.choice([0.3, 0.6, 1.0]) for _ in shape]
             a["density"][0:len(shape) - 1] = [1.0] * (len(shape) - 1) if g.random() < 0.5 else a["density"][0:len(shape) - 1]
